@@ -1,5 +1,6 @@
 import IdModel.Val.Model
 import IdModel.Doc.Resolve
+import IdModel.Props.C04
 /-!
 # C02 — JWT credential validation accepts only when every checked condition holds
 
@@ -60,6 +61,10 @@ theorem resolve_did (d : Doc) (k : Id) (s : Option Scope) (m : Method) (h : reso
         | refer i =>
           simp only [resolveMethodRef] at h
           exact fin i ((matches_ofId k i).1 hem) m (hq _ _ h)
+
+/-- whatever is resolved is a method embedded in the document -/
+theorem resolve_sound' (d : Doc) (q : Query) (s : Option Scope) (m : Method)
+    (h : resolveMethod d q s = some m) : m ∈ allMethods d := C04.resolve_sound d q s m h
 
 /-- everything `verify_signature` establishes, for the method id `mid`, issuer document `doc`, verification
 method `method` and claims set `cl` -/
